@@ -18,6 +18,8 @@ from engine import rustlex as lx
 
 SPEC = r"""
 pub enum RetryResult<I> { Ok { reported_input: (), output: () }, Transient { input: I, error: () }, Fatal { input: I, error: () } }
+pub struct MutinyStreamH { pub stream_id: u32 }
+impl MutinyStreamH { pub fn new(stream_id: u32) -> (r: Self) ensures r.stream_id == stream_id { MutinyStreamH { stream_id } } }
 pub struct Setter { pub value: Ghost<u64>, pub id: Ghost<int> }
 /// an OgreArc handle to the pool slot `slot` (the handle's own contracts: Kani ogre_arc / ogre_unique)
 pub struct OgreArc { pub slot: usize }
@@ -49,6 +51,13 @@ impl<const BUFFER_SIZE: usize, const MAX_STREAMS: usize> Chan<BUFFER_SIZE, MAX_S
     pub open spec fn unchanged(&self, o: &Self) -> bool { self.same_but_queues(o) && self.queues == o.queues && self.eff == o.eff }
     /// what a suspended send_with_async holds that makes others WAIT: nothing (a reserved pool slot consumes capacity only)
     pub open spec fn blocking_held(&self) -> int { 0 }
+    /// `self.streams_manager.create_stream_id()`: hands out a vacant id (which one: the vacant FIFO's head -- any id that is not live, as far as this unit knows)
+    #[verifier::external_body]
+    pub fn create_stream_id(&mut self) -> (id: u32)
+        requires old(self).wf(),
+        ensures final(self).wf(), (id as int) < MAX_STREAMS, !old(self).live@.contains(id as int), final(self).live@ == old(self).live@.insert(id as int),
+                final(self).queues == old(self).queues, final(self).eff == old(self).eff, final(self).queues_resume == old(self).queues_resume, final(self).suspensions == old(self).suspensions,
+    { unimplemented!() }
 
     /// the longest queue among the live listeners (0 without listeners): what the iterator chain of pending_items_count() computes over the live list
     pub open spec fn is_longest(&self, r: int) -> bool {
@@ -225,6 +234,22 @@ class EitherChain(Rule):
         return text
 
 
+def new_listener_fn(file, struct):
+    """C10: `create_stream_for_new_events` -- the postcondition is TAKEN FROM THE PROPERTY: a listener created now can only ever be handed events sent from now on, i.e.
+    the queue it will consume from is EMPTY at this moment. (KNOWN FINDING on the unchanged tree: nothing empties the queue of a recycled stream id -- the id handed
+    out by the streams manager is any vacant one, and whatever its previous owner left unconsumed is still there; Kani: new_listener_sees_nothing_old gives the history.)"""
+    impl_multi = r"ChannelMulti\s*<[^{]*?>\s*for\s+%s\s*<[^{]*(?=\{)" % struct
+    f = FnSpec(file, "create_stream_for_new_events", impl=impl_multi, out_name="create_stream_for_new_events_sees_nothing_old", props=["C10"],
+               sig="pub fn create_stream_for_new_events_sees_nothing_old(&mut self) -> (r: (MutinyStreamH, u32))", sig_anchor=r"fn create_stream_for_new_events\(self: &Arc<Self>\)",
+               rules=[Rule("R6-create-id", r"self\.streams_manager\.create_stream_id\(\)", "self.create_stream_id()", count=1, note="streams manager -> shim: hands out ANY vacant id (units streams_bookkeeping)"),
+                      Rule("R5-self-arg", r"MutinyStream::new\(stream_id, self\)", "MutinyStreamH::new(stream_id)", count=1, note="the stream's back-pointer to the channel is dropped")],
+               requires="old(self).wf()",
+               ensures="(r.1 as int) < MAX_STREAMS, r.0.stream_id == r.1, !old(self).live@.contains(r.1 as int), final(self).live@ == old(self).live@.insert(r.1 as int),"
+                       "final(self).queues == old(self).queues, final(self).queues@[r.1 as int].len() == 0")
+    f.container = "impl<const BUFFER_SIZE: usize, const MAX_STREAMS: usize> Chan<BUFFER_SIZE, MAX_STREAMS>"
+    return f
+
+
 def pending_fn(file, struct):
     impl_common = r"ChannelCommon\s*<[^{]*?>\s*for\s+%s\s*<[^{]*(?=\{)" % struct
     # C06 / C20: what flush / close poll is determined by the listener queues ALONE (whatever else is going on -- e.g. a suspended send_with_async -- must
@@ -294,6 +319,7 @@ def unit(kind, file, struct):
                    "old(self).queues@[stream_id as int].len() == 0 ==> r is None && final(self).queues@[stream_id as int] == old(self).queues@[stream_id as int]"),
     ]
     fns.append(pending_fn(file, struct))
+    fns.append(new_listener_fn(file, struct))
     return Unit("multi_ogre_arc_" + kind, fns, spec=spec_with_real_atomics(SPEC, file, struct),
                 trusted=["send_derived: its contract is what units fanout_ogre_arc_%s prove of its body (+ Kani multi_ogre_arc_%s, thorough tier)" % (kind, kind),
                          "ogre_arc_new / alloc_ref / dealloc_ref / id_from_ref: the allocator's contract (unit pool_allocator, Kani pool harnesses) and OgreArc::new / from_allocated (Kani ogre_arc)",
@@ -312,6 +338,8 @@ UNITS = [unit("atomic", "src/multi/channels/ogre_arc/atomic.rs", "Atomic"), unit
 # ------------------------------------------------------------------------------------------------------------------------------------
 SPEC_ARC = r"""
 pub enum RetryResult<I> { Ok { reported_input: (), output: () }, Transient { input: I, error: () }, Fatal { input: I, error: () } }
+pub struct MutinyStreamH { pub stream_id: u32 }
+impl MutinyStreamH { pub fn new(stream_id: u32) -> (r: Self) ensures r.stream_id == stream_id { MutinyStreamH { stream_id } } }
 pub struct Setter { pub value: Ghost<u64>, pub id: Ghost<int> }
 impl Setter {
     /// the MaybeUninit slot + setter call: the setter is CONSUMED (invoked once) and leaves its value
@@ -342,6 +370,13 @@ impl<const BUFFER_SIZE: usize, const MAX_STREAMS: usize> Chan<BUFFER_SIZE, MAX_S
         &&& forall|j: int| 0 <= j < before.len() ==> (#[trigger] self.queues@[j]) == (if self.live@.contains(j) { before[j].push(v) } else { before[j] })
     }
     pub open spec fn blocking_held(&self) -> int { 0 }
+    /// `self.streams_manager.create_stream_id()`: hands out a vacant id (which one: the vacant FIFO's head -- any id that is not live, as far as this unit knows)
+    #[verifier::external_body]
+    pub fn create_stream_id(&mut self) -> (id: u32)
+        requires old(self).wf(),
+        ensures final(self).wf(), (id as int) < MAX_STREAMS, !old(self).live@.contains(id as int), final(self).live@ == old(self).live@.insert(id as int),
+                final(self).queues == old(self).queues, final(self).eff == old(self).eff, final(self).queues_resume == old(self).queues_resume, final(self).suspensions == old(self).suspensions,
+    { unimplemented!() }
 
     /// the longest queue among the live listeners (0 without listeners): what the iterator chain of pending_items_count() computes over the live list
     pub open spec fn is_longest(&self, r: int) -> bool {
@@ -444,6 +479,7 @@ def unit_arc(kind, file, struct, consume_rule):
                    "final(self).cancels == old(self).cancels"),
     ]
     fns.append(pending_fn(file, struct))
+    fns.append(new_listener_fn(file, struct))
     return Unit("multi_arc_" + kind, fns, spec=spec_with_real_atomics(SPEC_ARC, file, struct),
                 trusted=["send_derived: its contract is what unit fanout_arc_%s proves of its body" % kind,
                          "consume_from / try_recv_from: the listener queue's contract (ring units + Kani; crossbeam: ASSUMED bounded FIFO whose both ends the channel owns)"],
